@@ -132,6 +132,13 @@ EXTRA_SETS: Dict[str, Dict[str, str]] = {
                            "message True { enum Kind { KIND_ZERO = 0; KIND_ONE = 1; } Kind k = 1; message Deep { message Deeper { int32 z = 1; } Deeper d = 1; } Deep deep = 2; }\n"
                            "message User { None n = 1; None.Inner ni = 2; True.Kind tk = 3; Holder._1st h = 4; }\n",
     },
+    # map fields of ONE message whose names differ only by underscores / letter case (their entry types ABEntry / AbEntry
+    # are distinct for protoc), with different key and value types
+    "twin_map_names": {
+        "tm_maps.proto": _P3 + "package vftwin.maps;\nmessage V { int32 x = 1; }\nmessage W { string t = 1; }\nmessage M { map<string, int32> a_b = 1; map<int64, bytes> ab = 2; "
+                         "map<string, V> foo_bar = 3; map<int32, W> foobar = 4; map<bool, string> HTTP_code = 5; map<string, double> httpcode = 6; "
+                         "message Inner { map<uint32, V> k_v = 1; map<string, W> kv = 2; } Inner inner = 7; }\n",
+    },
     # package names that are string prefixes of each other without being parent and child
     "prefix_packages": {
         "pp_cart.proto": _P3 + 'package vfshop2.cart;\nimport "pp_cartoon.proto";\nimport "pp_cartoon_types.proto";\nmessage Cart { vfshop2.cartoon.Toon toon = 1; '
@@ -226,7 +233,7 @@ def value_items(tier: str, seed: int, n_gen: int, with_inputs: bool = True) -> L
                          {"kind": "matrix", "plugin_opts": "pydantic_dataclasses"}, {"kind": "features"},
                          {"kind": "extra", "name": "named_like_library"}, {"kind": "extra", "name": "enum_only_pkg"},
                          {"kind": "extra", "name": "deprecated_rpc_only"}, {"kind": "extra", "name": "package_cycle"},
-                         {"kind": "extra", "name": "odd_map_and_nested_names"}]
+                         {"kind": "extra", "name": "odd_map_and_nested_names"}, {"kind": "extra", "name": "twin_map_names"}]
     for i in range(n_gen):
         items.append({"kind": "gen", "seed": seed * 100003 + i, "opts": {"services": False}})
     if with_inputs:
